@@ -1,6 +1,8 @@
 package chainx
 
 import (
+	"fmt"
+
 	"verifharness/vh"
 )
 
@@ -251,4 +253,16 @@ func (t *Tree) Schedule(rng *vh.RNG) [][]int {
 		}
 	}
 	return out
+}
+
+// SafeGenTree is GenTree with panics of the real code (a linear twin applying freshly mined valid
+// blocks) turned into an error: on a sound tree the generator never panics, so the panic text is
+// itself a failing input description (the history is the tree built so far).
+func SafeGenTree(rng *vh.RNG, net *Net, cfg GenCfg) (t *Tree, err error) {
+	defer func() {
+		if r := recover(); r != nil {
+			err = fmt.Errorf("%v", r)
+		}
+	}()
+	return GenTree(rng, net, cfg), nil
 }
